@@ -37,7 +37,10 @@ pub fn in_shuttle() -> bool { shuttle::current::get_current_task().is_some() }
 /// Explicit scheduling point (no-op outside shuttle).
 pub fn point(_label: &'static str) {
     if in_shuttle() {
-        shuttle::thread::yield_now();
+        // a plain context-switch opportunity (not a "yield": the running
+        // task does not ask to be descheduled)
+        let a = shuttle::sync::atomic::AtomicBool::new(false);
+        let _ = a.load(::std::sync::atomic::Ordering::SeqCst);
     }
 }
 
